@@ -44,7 +44,18 @@ def req_cases(prop, abstract, rnd, tier):
             c = dict(a)
             c.update(codec=rnd.choice(["json", "proto"]), gzip=rnd.random() < 0.25, spell=rnd.choice(["json", "proto"]),
                      invalid="", table=(d % 2 == 0), stream=rnd.random() < 0.15, fam="tc", zeropath=(prop == "C07" and d % 3 == 2),
-                     framing=rnd.choice(["", "", "unsized", "chunked"]))
+                     framing=rnd.choice(["", "", "unsized", "chunked"]), compsub=False, ws=False)
+            out.append(c)
+        if prop == "C07":
+            # a query key that names a sub-field of the path-bound field (takes effect when that field is a wrapper,
+            # Timestamp or Duration), and the same competition on a WebSocket session (the body is the first frame)
+            c = dict(a)
+            c.update(codec="json", gzip=False, spell=rnd.choice(["json", "proto"]), invalid="", table=True, stream=False, fam="tc",
+                     zeropath=False, framing="", compsub=True, ws=False)
+            out.append(c)
+            c = dict(a)
+            c.update(codec="json", gzip=False, spell=rnd.choice(["json", "proto"]), invalid="", table=rnd.random() < 0.5, stream=False, fam="tc",
+                     zeropath=False, framing="", compsub=rnd.random() < 0.3, ws=True)
             out.append(c)
         if prop == "C03":
             # one invalid text per shape, in a path-bound or query-carried scalar
@@ -53,7 +64,7 @@ def req_cases(prop, abstract, rnd, tier):
                 if role in a["present"] and a["body"] != "*":
                     cands.append(role)
             c = dict(a)
-            c.update(codec="json", gzip=False, spell="proto", invalid=rnd.choice(cands), table=True, stream=False, fam="tc", zeropath=False, framing="")
+            c.update(codec="json", gzip=False, spell="proto", invalid=rnd.choice(cands), table=True, stream=False, fam="tc", zeropath=False, framing="", compsub=False, ws=False)
             out.append(c)
     return out
 
